@@ -132,6 +132,15 @@ inductive Cmd where
   /-- `jj commit -m <fresh>`: rewrites `@`; commands/commit.rs `cmd_commit` calls
       `check_rewritable([commit.id()])` on the working-copy commit (since /repo edbccd1) -/
   | commitWc
+  /-- `jj new --no-edit -A X -B Y…` — both `--insert-after` and `--insert-before`: third arm of
+      `compute_commit_location` (cli_util.rs): new parents = `X`, new children = the `-B` commits -/
+  | newAB (x : Nat) (ys : List Nat)
+  /-- `jj rebase -r Z -A X -B Y…` -/
+  | rebaseRAB (z x : Nat) (ys : List Nat)
+  /-- `jj duplicate Z -A X -B Y…` -/
+  | duplicateAB (z x : Nat) (ys : List Nat)
+  /-- `jj revert -r Z -A X -B Y…` -/
+  | revertAB (z x : Nat) (ys : List Nat)
 deriving Repr, DecidableEq
 
 /-- The set each command passes to `check_rewritable` (`wc` = id of `@`). -/
@@ -159,6 +168,12 @@ def checked (g : Graph) (wc : Nat) : Cmd → List Nat
   | .simplifyParents x => [x]
   | .refSet _ => []
   | .commitWc => [wc]
+  -- `compute_commit_location`: `check_rewritable(new_child_ids)` after the `match`, for every arm;
+  -- with both flags the new children are the `-B` commits themselves
+  | .newAB _ ys => ys
+  | .rebaseRAB z _ ys => z :: ys
+  | .duplicateAB _ _ ys => ys
+  | .revertAB _ _ ys => ys
 
 /-- Commands that abandon the working-copy commit without asking `check_rewritable`
 (new / edit: `MutableRepo::maybe_abandon_wc_commit`).  `jj commit` used to be here as well; it is
@@ -170,12 +185,19 @@ def unguarded : Cmd → Bool
 /-- user errors raised *before* the immutability check -/
 def preError (g : Graph) : Cmd → Bool
   | .squashParent x => (parentsOf g x).length ≠ 1
+  | .duplicateAB z _ _ => z = 0  -- "Cannot duplicate the root commit"
   | _ => false
 
 /-- user errors raised *after* the immutability check -/
 def postError (g : Graph) : Cmd → Bool
   | .rebaseS s d => decide (d ∈ descendants g [s])
   | .rebaseR x d => x = d
+  -- `ensure_no_commit_loop` (runs after `check_rewritable(new_child_ids)`): a new parent is a
+  -- descendant (inclusive) of a new child.  Cannot happen with `-A` alone or `-B` alone.
+  | .newAB x ys => decide (x ∈ descendants g ys)
+  | .rebaseRAB _ x ys => decide (x ∈ descendants g ys)
+  | .duplicateAB _ x ys => decide (x ∈ descendants g ys)
+  | .revertAB _ x ys => decide (x ∈ descendants g ys)
   | _ => false
 
 /-- `@` is abandoned when the command leaves it and it is discardable, unreferenced and a head. -/
@@ -212,6 +234,12 @@ def effect (g : Graph) (wc : Nat) : Cmd → List Nat × List Nat
   | .simplifyParents x => (descendants g [x], [])
   | .refSet _ => ([], [])
   | .commitWc => (descendants g [wc], [])
+  -- the `-B` commits get the inserted commit as an additional / replacing parent; their
+  -- descendants are rebased
+  | .newAB _ ys => (descendants g ys, [])
+  | .rebaseRAB z _ ys => (descendants g (z :: ys), [])
+  | .duplicateAB _ _ ys => (descendants g ys, [])
+  | .revertAB _ _ ys => (descendants g ys, [])
 
 /-- all visible commits the command changes -/
 def affected (g : Graph) (wc : Nat) (c : Cmd) : List Nat := (effect g wc c).1 ++ (effect g wc c).2
